@@ -248,10 +248,13 @@ Definition parse (inf : bool) (prec : Z) (ts : list token) : res (expr * list to
 
 (* ---- statements: the part of parseModule / parseStmt reached by expression statements ---------------- *)
 
-(* `if !p.prevLT && p.tt == SemicolonToken { p.next() }` *)
-Definition skip_semi (ts : list token) : list token :=
+(* the tail of parseStmt:
+     `if p.tt == SemicolonToken { if !p.prevLT { p.next() } else { switch stmt.(type) { case ..., *ExprStmt, ...: p.next() } } }`
+   [always]: the statement is of a kind that is terminated by a semicolon (here: ExprStmt), so the ';' is taken on a
+   next line as well; an EmptyStmt or LabelledStmt takes a following ';' on the same line only. *)
+Definition skip_semi (always : bool) (ts : list token) : list token :=
   match ts with
-  | c :: r => if negb (lt c) && (ty c =? tt_SemicolonToken) then r else ts
+  | c :: r => if (always || negb (lt c)) && (ty c =? tt_SemicolonToken) then r else ts
   | [] => ts
   end.
 
@@ -277,7 +280,7 @@ Fixpoint parse_stmt (n : nat) (ts : list token) {struct n} : res (stmt * list to
     match ts with
     | [] => Ok (SEmpty, [])                            (* case ErrorToken *)
     | k :: rest =>
-      if ty k =? tt_SemicolonToken then Ok (SEmpty, skip_semi rest)
+      if ty k =? tt_SemicolonToken then Ok (SEmpty, skip_semi false rest)
       else if stmt_keyword (ty k) then OutFrag
       else if ty k =? tt_LetToken then
         (* case LetToken: a declaration when an identifier, yield, await, '[' or '{' follows; else the identifier `let` *)
@@ -287,22 +290,22 @@ Fixpoint parse_stmt (n : nat) (ts : list token) {struct n} : res (stmt * list to
                || (ty c =? tt_OpenBracketToken) || (ty c =? tt_OpenBraceToken) then OutFrag
             else
               '(e, r') <~ parse_suffix (fuel_for rest) true (EVar (data k)) prec_OpExpr primary rest ;;
-              if stmt_end_ok r' then Ok (SExpr e, skip_semi r') else Fail
+              if stmt_end_ok r' then Ok (SExpr e, skip_semi true r') else Fail
         | [] => Ok (SExpr (EVar (data k)), [])
         end
       else if is_identifier (ty k) then
         match rest with
         | c :: r =>
             if ty c =? tt_ColonToken then
-              '(s, r') <~ parse_stmt m r ;; Ok (SLabel (data k) s, skip_semi r')
+              '(s, r') <~ parse_stmt m r ;; Ok (SLabel (data k) s, skip_semi false r')
             else
               '(e, r') <~ parse_suffix (fuel_for rest) true (EVar (data k)) prec_OpExpr primary rest ;;
-              if stmt_end_ok r' then Ok (SExpr e, skip_semi r') else Fail
+              if stmt_end_ok r' then Ok (SExpr e, skip_semi true r') else Fail
         | [] => Ok (SExpr (EVar (data k)), [])
         end
       else
         '(e, r') <~ parse_expr (fuel_for ts) true prec_OpExpr ts ;;
-        if stmt_end_ok r' then Ok (SExpr e, skip_semi r') else Fail
+        if stmt_end_ok r' then Ok (SExpr e, skip_semi true r') else Fail
     end
   end.
 
